@@ -32,7 +32,9 @@ RULE = ("case = a multiset of 1-7 distinct atoms (elements, isotopes, D/T, ions,
         "the Hill form of the result and of the operands checked after every step (flag) and of all variables "
         "at the end (multipliers 0 and 0.0 and counts written as zero included; composition series x*A + (1-x)*B with "
         "x in {0, 1, .5, .25}: hill.atoms == f.atoms as dicts, zero-count keys included; against the model a "
-        "zero count is the same as absent); plus long histories: 1-5 ionic formulas (either table) are built and their Hill forms taken, "
+        "zero count is the same as absent; counts and multipliers also as fractions.Fraction: a formula into which "
+        "only ints and Fractions went has exactly the model's counts in atoms and hill.atoms; a 'decimal' task does "
+        "the same for decimal.Decimal counts through formula(dict), formula(sequence), n*f, 2*f, f+f); plus long histories: 1-5 ionic formulas (either table) are built and their Hill forms taken, "
         "every element ion of the table (499) and drawn isotope ions are then looked up or parsed in a drawn order, "
         "and afterwards the held formulas, new spellings of the same atoms (reversed dict, reversed string, "
         "regrouped string) and held+new / new+held sums must pass the same oracle, with Hill forms equal to those "
@@ -337,7 +339,7 @@ def classify(keys):
     return two_charges, tie, two_isotopes, dt_h
 
 
-def check_hill(E, f, model, where, case, exact=True):
+def check_hill(E, f, model, where, case, exact=True, ref_from_atoms=None, mass=True):
     """One formula against its model {key: Fraction}: f.hill has the model's atoms (exactly, or rel 1e-12 when
     the counts are arbitrary doubles) and f.atoms; is flat, complete and ordered; is idempotent; equals the Hill
     form of a fresh formula({atom: count}) with the same atoms given in another order.  Returns (hill, atoms in order)."""
@@ -372,7 +374,7 @@ def check_hill(E, f, model, where, case, exact=True):
         if a is not key_to_atom(table, atom_key(a)):
             raise Violation("c19:atoms:identity", "%s: atom %r of the Hill structure is not an atom of the %s table"
                             % (where, a, E.get("which", "public")), case)
-    fm, hm = f.mass, h.mass
+    fm, hm = (f.mass, h.mass) if mass else (0, 0)
     if not (fm == hm or abs(fm - hm) <= 1e-12 * max(abs(fm), abs(hm))):
         raise Violation("c19:mass", "%s: mass of the Hill form %r, of the formula %r" % (where, hm, fm), case)
     # flat, complete, ordered
@@ -399,7 +401,9 @@ def check_hill(E, f, model, where, case, exact=True):
     if not (h2 == h):
         raise Violation("c19:unstable", "%s: .hill taken twice gives %s then %s" % (where, h, h2), case)
     # canonical: a fresh formula with the same atom counts, keys in another order
-    if exact:
+    if ref_from_atoms is None:
+        ref_from_atoms = not exact
+    if not ref_from_atoms:
         items = [(key_to_atom(table, k), jnum(model[k])) for k in sorted(model, reverse=True)]
     else:
         items = list(reversed(list(fa_.items())))
@@ -512,7 +516,9 @@ def check_history(ctx, value):
         if not v.comp or any(c < 0 for c in v.comp.values()):
             return
         seen.update(v.comp)
-        check_hill(on_table(E, v.table), v.f, v.comp, where + " (%s table)" % v.table, case, exact=False)
+        # a variable into which only ints and Fractions went has exactly the model's counts, whatever their type
+        check_hill(on_table(E, v.table), v.f, v.comp, where + " (%s table)" % v.table, case, exact=v.exact,
+                   ref_from_atoms=True)
 
     def observer(step, vars_):
         # the Hill form of the new/changed variable and, again, of its operands, right after the step
@@ -658,8 +664,57 @@ def task_multisets(ctx, n):
 
 def task_histories(ctx, n, steps=14):
     E = env()
-    strat = st.tuples(ops.history(E["pool"], max_steps=steps, mult=ops.number(zero=True), tables=True, zeros=True), st.sampled_from([True, True, False]))
+    strat = st.tuples(ops.history(E["pool"], max_steps=steps, mult=ops.number(zero=True, exact=True), tables=True, zeros=True, exact=True), st.sampled_from([True, True, False]))
     ctx.search("histories", strat.map(list), check_history, n)
+
+
+# ----------------------------------------------------------------------
+# counts of exact decimal type (decimal.Decimal) given through formula(dict), formula(sequence) and n*formula
+DECIMALS = ["0.1", "0.3", "1.7", "2.05", "0.001", "12.5", "3", "0.7", "1E-3", "0.333"]
+
+
+def check_decimal(ctx, case):
+    from decimal import Decimal as D
+    E = env()
+    pool, table, formula = E["pool"], E["table"], E["formula"]
+    pairs, seen = [], set()
+    for spec, text in case["atoms"]:
+        k = spec_key(pool, spec)
+        if k not in seen:
+            seen.add(k)
+            pairs.append((spec, text))
+    how = case["how"]
+    n = D(case["n"])
+    if how == "dict":
+        f = formula(dict((resolve(table, sp), D(t)) for sp, t in pairs))
+        model = dict((spec_key(pool, sp), Fraction(D(t))) for sp, t in pairs)
+    elif how == "seq":
+        f = formula([(D(t), resolve(table, sp)) for sp, t in pairs])
+        model = dict((spec_key(pool, sp), Fraction(D(t))) for sp, t in pairs)
+    else:
+        f = n * formula(dict((resolve(table, sp), 1 + i) for i, (sp, t) in enumerate(pairs)))
+        model = dict((spec_key(pool, sp), Fraction(n) * (1 + i)) for i, (sp, t) in enumerate(pairs))
+    ctx.case(json.dumps(case, sort_keys=True), nontrivial=any(classify(set(model))[i] for i in (0, 2, 3)),
+             sample=case, cls=["source:decimal-counts", "decimal:" + how])
+    for what, g, m in (("f", f, model), ("2*f", 2 * f, ops.mscale(model, 2)), ("f+f", f + f, ops.mscale(model, 2)),
+                       ("n*f", n * f, ops.mscale(model, Fraction(n)))):
+        check_hill(E, g, m, "Decimal counts via %s, %s = %s" % (how, what, str(g)[:60]), case, exact=True,
+                   ref_from_atoms=True, mass=False)
+    if how == "dict":
+        # formula(dict) is already in Hill order
+        if not (f == f.hill) or not (f.hill == f):
+            raise Violation("c19:parsed-vs-own-hill:order", "formula(dict with Decimal counts) %r != its .hill %r"
+                            % (f.structure, f.hill.structure), case)
+
+
+def task_decimal(ctx, n):
+    E = env()
+    pool = E["pool"]
+    strat = st.fixed_dictionaries({
+        "kind": st.just("decimal"),
+        "atoms": st.lists(st.tuples(pool.atom(), st.sampled_from(DECIMALS)).map(list), min_size=1, max_size=4),
+        "how": st.sampled_from(["dict", "seq", "mul"]), "n": st.sampled_from(DECIMALS)})
+    ctx.search("decimal", strat, check_decimal, n)
 
 
 SERIES = [[0, 1], [1, 0], [0.0, 1.0], [1.0, 0.0], [0, 1.0], [0.5, 0.5], [0.25, 0.75], [0, 0]]
@@ -668,7 +723,7 @@ SERIES = [[0, 1], [1, 0], [0.0, 1.0], [1.0, 0.0], [0, 1.0], [0.5, 0.5], [0.25, 0
 def task_series(ctx, n):
     """Composition series x*A + (1-x)*B including the end members x = 0 and x = 1."""
     E = env()
-    c = ops.constructor(E["pool"], tables=False, zeros=True)
+    c = ops.constructor(E["pool"], tables=False, zeros=True, exact=True)
     strat = st.tuples(c, c, st.sampled_from(SERIES), st.booleans()).map(
         lambda t: [[t[0], t[1], ["mul", t[2][0], 0], ["mul", t[2][1], 1], ["add", 2, 3], ["add", 3, 2], ["iadd", 2, 3]], t[3]])
     ctx.search("series", strat, check_history, n)
@@ -679,17 +734,19 @@ def tasks(tier):
         return ([("multisets-%d" % k, task_multisets, dict(n=330)) for k in range(8)] +
                 [("histories-%d" % k, task_histories, dict(n=200)) for k in range(3)] +
                 [("long-%d" % k, task_long, dict(n=60)) for k in range(2)] +
-                [("series", task_series, dict(n=150))])
+                [("series", task_series, dict(n=150)), ("decimal", task_decimal, dict(n=150))])
     # coverage-guided tier (pbt/fuzz.py): libFuzzer drives the strategies and oracles of these tasks
     from .. import fuzz
     return fuzz.extend([("multisets-%d" % k, task_multisets, dict(n=10000)) for k in range(12)] +
                        [("histories-%d" % k, task_histories, dict(n=4000, steps=12 + 4 * k)) for k in range(4)] +
                        [("long-%d" % k, task_long, dict(n=1500)) for k in range(2)] +
-                       [("series", task_series, dict(n=4000))], PROPERTY, ['multisets-0'])
+                       [("series", task_series, dict(n=4000)), ("decimal", task_decimal, dict(n=3000))], PROPERTY, ['multisets-0'])
 
 
 def replay(ctx, case):
-    if case.get("kind") == "long":
+    if case.get("kind") == "decimal":
+        check_decimal(ctx, case)
+    elif case.get("kind") == "long":
         check_long(ctx, case)
     elif case.get("kind") == "history":
         check_history(ctx, (case["ops"], case.get("early", False)))
